@@ -397,7 +397,11 @@ func (fx *FuncExec) doAppend(st *State, reach *Term, args []Value, src string) (
 	ts.SetRange(fcap, bigZero, big2p40)
 	fx.addFact(reach, ts.And(ts.Le(newLen, fcap), ts.Le(fcap, ts.BigInt(big2p40)), ts.Le(ts.Int(0), fcap)))
 	fx.addFact(reach, ts.Le(newLen, ts.BigInt(big2p40))) // size assumption: no slice outgrows 2^40 elements
-	res := mkSlice(ts.Ite(inplace, s.arr, fresh), ts.Ite(inplace, s.off, ts.Int(0)), newLen, ts.Ite(inplace, s.cap, fcap), s.elem)
+	// A grown slice really starts at offset 0 of its new array. Offsets are not observable by the
+	// program (only indices relative to the slice are, and the new array is shared with nothing), so
+	// the model keeps the old offset: the new array is a copy of the old one at the same indices.
+	// This keeps every index term free of case splits.
+	res := mkSlice(ts.Ite(inplace, s.arr, fresh), s.off, newLen, ts.Ite(inplace, s.cap, fcap), s.elem)
 	if !intRepresentable(s.elem) {
 		fx.note("append on slices of " + typeKey(s.elem) + ": contents not tracked")
 		return reach, res
@@ -405,11 +409,12 @@ func (fx *FuncExec) doAppend(st *State, reach *Term, args []Value, src string) (
 	hk := elemHeapKey(s.elem)
 	h := fx.heapGet(st, hk, SArr2)
 	oldS := ts.Select(h, s.arr)
-	// base array: in place -> old backing array; fresh -> copy of the prefix
+	// base array: in place -> old backing array; fresh -> copy of the live prefix, zero elsewhere
 	fcopy := ts.Fresh("appcopy", SArr)
 	i := ts.Bound("i", SInt)
-	fx.addFact(ts.And(reach, ts.Not(inplace)), ts.QuantIdx(true, i, ts.And(ts.Le(ts.Int(0), i), ts.Lt(i, s.len)),
-		ts.Eq(ts.Select(fcopy, i), ts.Select(oldS, ts.Add(s.off, i)))))
+	inWin := ts.And(ts.Le(s.off, i), ts.Lt(i, ts.Add(s.off, s.len)))
+	fx.addFact(ts.And(reach, ts.Not(inplace)), ts.Forall([]*Term{i},
+		ts.Eq(ts.Select(fcopy, i), ts.Ite(inWin, ts.Select(oldS, i), ts.Int(0))), ts.Select(fcopy, i)))
 	base := ts.Ite(inplace, oldS, fcopy)
 	start := ts.Add(res.off, s.len)
 	var newArr *Term
